@@ -142,7 +142,7 @@ func evaluate(p *program, witness bool) *verdict {
 			v.branch = brHeld
 			return v
 		}
-		v.diag = diagnose(b, cfgO1, "O1")
+		v.diag = diagnose(b, cfgO1, "O1", witness)
 		v.branch, v.key, v.what = classifyDeviation(v.diag, diff1, "O1")
 		return v
 	}
@@ -163,7 +163,7 @@ func evaluate(p *program, witness bool) *verdict {
 		v.what = fmt.Sprintf("in-tree differs from the reference with Constantinople rules (O1) in %s and equals the reference run with the in-tree rule flags at block %d (O2); rules that explain it: %s", diff1, p.Block, strings.Join(v.rules, ", "))
 		return v
 	}
-	v.diag = diagnose(b, cfgO2, "O2")
+	v.diag = diagnose(b, cfgO2, "O2", witness)
 	v.branch, v.key, v.what = classifyDeviation(v.diag, diff2, "O2")
 	return v
 }
@@ -250,21 +250,23 @@ type stepView struct {
 	Err   string `json:",omitempty"`
 }
 
-func viewStep(s stepRec) *stepView {
-	return &stepView{Depth: s.Depth, PC: s.PC, Op: opName(s.Op), Addr: hexs(s.Addr[:]), Err: s.Err}
+func viewStep(r *rec, i int) *stepView {
+	s := r.trace[i]
+	a := r.addrAtStep(i)
+	return &stepView{Depth: int(s.Depth), PC: uint64(s.PC), Op: opName(s.Op), Addr: hexs(a[:]), Err: r.errAt(i)}
 }
 
-func diagnose(b *built, cfg *rparams.ChainConfig, name string) *diagnosis {
+func diagnose(b *built, cfg *rparams.ChainConfig, name string, witness bool) *diagnosis {
 	d := &diagnosis{refName: name, FirstDiff: -1}
-	d.in = runInTree(b, true, true)
-	d.ref = runRef(b, cfg, name, true, true)
+	d.in = runInTree(b, true, witness)
+	d.ref = runRef(b, cfg, name, true, witness)
 	ta, tb := d.in.rec.trace, d.ref.rec.trace
 	n := len(ta)
 	if len(tb) < n {
 		n = len(tb)
 	}
 	for i := 0; i < n; i++ {
-		if ta[i] != tb[i] {
+		if ta[i].Digest != tb[i].Digest {
 			d.FirstDiff = i
 			break
 		}
@@ -274,10 +276,10 @@ func diagnose(b *built, cfg *rparams.ChainConfig, name string) *diagnosis {
 	}
 	if i := d.FirstDiff; i >= 0 {
 		if i < len(ta) {
-			d.InStep = viewStep(ta[i])
+			d.InStep = viewStep(d.in.rec, i)
 		}
 		if i < len(tb) {
-			d.RefStep = viewStep(tb[i])
+			d.RefStep = viewStep(d.ref.rec, i)
 		}
 		if i == 0 {
 			d.PrevOp = "entry"
@@ -652,7 +654,7 @@ func main() {
 		run.Inconclusive("self-test: " + why)
 		os.Exit(run.Finish())
 	}
-	n := lib.Pick(60000, 5000000)
+	n := lib.Pick(100000, 5000000)
 	if s := os.Getenv("C10_PROGRAMS"); s != "" {
 		fmt.Sscan(s, &n)
 	}
